@@ -849,3 +849,4 @@ def run(ctx):
     ctx.cov["generator_mismatches"] = st["nd"]
     ctx.cov["evaluation_mismatches"] = st["nde"]
     ctx.cov["zero_limit_requests_differing_from_fixed_model"] = st["zero_limit_diff"]
+    __import__("vglue").glue(ctx, "C14")
